@@ -318,7 +318,7 @@ def run(rep, tier, seed):
         m = c["m"]
         if o["after"] != m["after"] or [(p["t"], p["a"]) for p in o["prompts"]] != [(p["t"], p["a"]) for p in m["prompts"]]:
             rep.drifted("%s %s: model %s, code %s" % (c["site"], _key(c)[2:], m, o))
-        if o["exc"] != "none":
+        if o["exc"] != "none" and not (o["exc"] in ("EOFError", "exit1") and "EOF" in list(c["ans"])):   # the library raises, the commands exit with 1
             rep.drifted("%s: exception %s" % (c["site"], o["exc"]))
         if any(c["ex"]) and c["confirm"]:
             rep.nontriv(_key(c))
